@@ -42,37 +42,93 @@ func randomEditCases(f *fx.Fixture, r *rand.Rand, n int, kinds []string, stores,
 	}
 }
 
-func planC03(tier string, seed int64) (*core.Plan, error) {
-	f, err := fx.Load("S0")
+var allSrcs = []string{"json", "rmap", "nmap", "nslice", "nstruct"}
+
+// storesFor: the legacy struct-backed Reflect node (rstruct) implements no case
+// detection and cannot represent an unset int leaf; it is bound on the choice-free
+// fixture P0 only.
+func storesFor(fname string) (stores, srcs []string) {
+	if fname == "P0" {
+		return fx.StoreNames, append(append([]string{}, allSrcs...), "rstruct")
+	}
+	for _, s := range fx.StoreNames {
+		if s != "rstruct" {
+			stores = append(stores, s)
+		}
+	}
+	return stores, allSrcs
+}
+
+func editStage(fname string, r *rand.Rand, n int, kinds []string, hist int) (core.Stage, error) {
+	f, err := fx.Load(fname)
 	if err != nil {
-		return nil, err
+		return core.Stage{}, err
 	}
 	if err := f.CheckDS(); err != nil {
-		return nil, err
+		return core.Stage{}, err
 	}
+	return core.Stage{Name: fname, EvalMod: "EvalEdit", EvalEnv: map[string]string{"SCHEMA": f.DSFile},
+		Cases: func(emit func(core.Case)) {
+			stores, srcs := storesFor(fname)
+			randomEditCases(f, r, n, kinds, stores, srcs, emit)
+			randomHistories(f, r, hist, kinds, stores, srcs, emit)
+		}}, nil
+}
+
+// randomHistories: sequences of edits on one live store; each step's pre-state is the
+// observed post-state of the previous step.
+func randomHistories(f *fx.Fixture, r *rand.Rand, n int, kinds []string, stores, srcs []string, emit func(core.Case)) {
+	g := &gen.G{DS: f.DS, R: r, P: gen.Default}
+	for i := 0; i < n; i++ {
+		pre := g.Subtree(abs.Path{})
+		cur := pre
+		var ops []editOp
+		steps := 4 + r.Intn(8)
+		for s := 0; s < steps; s++ {
+			// entry points are chosen among the nodes of the initial tree and the roots of
+			// earlier sources; a stale entry point ends the history (harness-find-failed
+			// is not emitted: the executor stops quietly)
+			nodes := gen.Nodes(cur)
+			at := nodes[r.Intn(len(nodes))]
+			src := g.Subtree(at)
+			k := kinds[r.Intn(len(kinds))]
+			ops = append(ops, editOp{K: k, At: at, S: src, Src: srcs[r.Intn(len(srcs))]})
+			if k == "upsert" {
+				cur = src // later entry points may come from what was just written
+				if len(at) > 0 {
+					cur = pre
+				}
+			}
+		}
+		emit(core.Case{"kind": "edit", "fixture": f.Name, "store": stores[i%len(stores)], "pre": pre, "ops": ops, "history": true})
+	}
+}
+
+func planC03(tier string, seed int64) (*core.Plan, error) {
 	r := rng(seed)
-	n := 1500
+	n, h, mn := 1200, 150, 2
 	if tier == "thorough" {
-		n = 30000
+		n, h, mn = 20000, 3000, 3
 	}
-	mn := 2
-	if tier == "thorough" {
-		mn = 3
-	}
-	model, err := editModelRun(mn, 30)
+	model, err := editModelRun(mn, 60)
 	if err != nil {
 		return nil, err
 	}
 	p := &core.Plan{Property: "C03", Tier: tier, Seed: seed, Level: "model_checking",
-		Models:  []core.ModelRun{model},
-		EvalMod: "EvalEdit", EvalEnv: map[string]string{"SCHEMA": f.DSFile},
-		Rule:    "seeded random (pre tree, entry point, source subtree, strategy) on fixture S0 for every store kind x source kind; non-trivial: the source has at least one node and the operation changes the target or fails",
+		Models: []core.ModelRun{model},
+		Rule:   "seeded random (pre tree, entry point, source subtree, strategy upsert/insert/update) single steps and histories of 4-11 steps on fixtures S0 and S1 (compound keys, nested lists, nested/shorthand choices) for every store kind (legacy Reflect and nodeutil.Node over maps, slices of maps, structs) x source kind (JSON text, and each store kind); non-trivial: the operation changes the target or fails",
 		NonTrivial: func(r core.Rec) bool {
 			return canonJSON(r["pre"]) != canonJSON(r["post"]) || !(r["res"].(core.Rec)["ok"].(bool))
 		},
+		Assumptions: []string{"stores are built and read back directly (Go maps/structs), not through the library", "fixtures compile to the committed abstract schemas spec/S0.json, spec/S1.json, spec/M0.json (checked on every run)", "errors classified with errors.Is only"},
 	}
-	p.Cases = func(emit func(core.Case)) {
-		randomEditCases(f, r, n, []string{"upsert", "insert", "update"}, fx.StoreNames, []string{"json", "rmap", "nmap", "nslice"}, emit)
+	kinds := []string{"upsert", "insert", "update"}
+	for _, fname := range []string{"S0", "S1", "P0"} {
+		st, err := editStage(fname, r, n/3, kinds, h/3)
+		if err != nil {
+			return nil, err
+		}
+		p.Stages = append(p.Stages, st)
 	}
 	return p, nil
 }
